@@ -211,6 +211,8 @@ static void fam_aead()
 			std::vector<size_t> lens = { 1, c - 1, c, c + 1, 2 * c, 2 * c + 1, 3 * c, 3 * c + 1 };
 			if (co == 0 || co == 1)
 				lens.push_back(4 * c + 5), lens.push_back(7 * c);
+			if (co == 10 && !TH)
+				lens = { c, 2 * c + 1 };
 			for (size_t li = 0; li < lens.size(); li++)
 			{
 				std::string cid = std::string("aead:") + (ae == 1 ? "EAX" : "OCB") + ":co=" + str(co) + ":L=" + str(lens[li]);
@@ -389,6 +391,9 @@ static EskSem esk_sem(const octets &pkt)
 			return s;
 		s.f.push_back(x);
 	}
+	// X25519 (RFC 7748 section 5) ignores the most significant bit of the u-coordinate: 0x40 || 32 native octets, last octet
+	if (s.algo == 18 && s.f[0].size() == 33 && s.f[0][0] == 0x40)
+		s.f[0][32] &= 0x7F;
 	if (s.algo == 18)
 	{
 		if (off >= v.body.size() || off + 1 + v.body[off] > v.body.size())
